@@ -186,3 +186,37 @@ def round_times_case(case, keys):
             if isinstance(c.get(k), float):
                 c[k] = round(c[k], nd)
         yield c
+
+
+def sample_points(*entry_lists, extra=()):
+    """boundaries of all given interval lists plus midpoints between consecutive distinct boundaries
+    (boundaries closer than 1e-7 are treated as one, so that ulp noise never creates a sample point)"""
+    bs = sorted({float(x) for es in entry_lists for e in es for x in e[:2]} | {float(x) for x in extra})
+    merged = []
+    for x in bs:
+        if not merged or x - merged[-1] > 1e-7:
+            merged.append(x)
+    pts = []
+    for x, y in zip(merged, merged[1:]):
+        pts.append((x + y) / 2)
+    return pts
+
+
+def labelling_diff(es_expected, es_got, extra=()):
+    """first midpoint at which the two label-at-time functions differ, or None"""
+    for x in sample_points(es_expected, es_got, extra=extra):
+        le, lg = label_at(es_expected, x), label_at(es_got, x)
+        if le != lg:
+            return (x, le, lg)
+    return None
+
+
+def entries_close(es1, es2, tol=1e-9):
+    if len(es1) != len(es2):
+        return False
+    for x, y in zip(es1, es2):
+        if x[-1] != y[-1] or len(x) != len(y):
+            return False
+        if any(not close(p, q, tol) for p, q in zip(x[:-1], y[:-1])):
+            return False
+    return True
